@@ -114,6 +114,11 @@ Definition SctVector (bs : bytes) (scts : list bytes) : Prop :=
   sct_sum scts <= 65535 /\
   bs = sbe 2 (sct_sum scts) ++ sct_body scts.
 
+(* RFC 6962's vectors also have a FLOOR of 1: "SerializedSCT<1..2^16-1>" (an
+   SCT is never empty) and "sct_list<1..2^16-1>" (the list is never empty). *)
+Definition SctVectorRfc (bs : bytes) (scts : list bytes) : Prop :=
+  SctVector bs scts /\ scts <> [] /\ Forall (fun s => 1 <= lenN s) scts.
+
 (* an independent parser: 2-byte total, which must equal what remains; then
    2-byte length + that many bytes, until nothing remains *)
 Fixpoint sct_items (fuel : nat) (bs : bytes) : option (list bytes) :=
